@@ -191,6 +191,24 @@ def build_crop(case):
     raise KeyError(cls)
 
 
+def _same_object_again(t, img, seed):
+    """state carried across calls: the same transform object handles another sample (own ctx, other draws) before the ctx recorded
+    for the judged sample is read -- the record must still describe the judged sample"""
+    import copy
+    old = getattr(t, "rng", None)
+    try:
+        t.set_rng(RecRng(seed + 1, []))
+        t(copy.deepcopy(img), ctx={})
+    except Exception:  # noqa
+        pass
+    finally:
+        if old is not None:
+            try:
+                t.set_rng(old)
+            except Exception:  # noqa
+                pass
+
+
 def run_crop(case):
     log = []
     real = {"log": log}
@@ -216,6 +234,7 @@ def run_crop(case):
         y = t(img, ctx=ctx)
         real["out"] = "ok"
         real["_y"] = y
+        _same_object_again(t, img, case["seed"])
     except Exception as e:
         real["out"] = exc_kind(e)
         real["msg"] = str(e)[:200]
@@ -421,6 +440,7 @@ def run_rrc(case):
     try:
         real["_y"] = t(img, ctx=ctx)
         real["out"] = "ok"
+        _same_object_again(t, img, case["seed"])
     except Exception as e:
         real["out"] = exc_kind(e)
         real["msg"] = str(e)[:200]
@@ -1208,6 +1228,10 @@ def run_patch(case):
                 sh = T.PatchwiseShuffle()
                 sh.set_rng(RecRng(case["seed"], log))
                 q = sh(p, ctx=ctx)
+                # state carried across calls: the same transform object then handles the next sample (own ctx, as in a batch);
+                # what was recorded for THIS sample is read afterwards and must still describe this sample's shuffle
+                sh.set_rng(RecRng(case["seed"] + 1, []))
+                sh(p.clone(), ctx={})
                 perm = ctx.get("permutation")
                 real["perm"] = None if perm is None else [int(v) for v in perm]
                 real["order"] = [int(q[0, k, 0, 0]) for k in range(q.shape[1])] if c > 0 else []
